@@ -412,6 +412,9 @@ type ufOuter struct {
 // for T and *T wherever they occur (top level, struct fields, slice and map elements,
 // interface values, behind further pointers) and receives nil for a nil pointer; the
 // events are exactly what the registered function emits.
+type ufPS struct{ P *int8 }
+type ufPA [1]*int8
+
 func FOLD_UserFolders(h *rt.H) {
 	x := int8(h.U8("x"))
 	folder := func(p *ufT, v structform.ExtVisitor) error {
@@ -427,7 +430,16 @@ func FOLD_UserFolders(h *rt.H) {
 	key := func(k string) ev.Event { return ev.Event{K: ev.Key, Str: []byte(k)} }
 	var v interface{}
 	var want []ev.Event
-	switch h.Choose("where", 0, 12) {
+	x8 := x
+	switch h.Choose("where", 0, 16) {
+	case 13: // pointer-shaped aggregates (one pointer field / one pointer element) by value
+		v, want = ufPS{&x8}, []ev.Event{sNum(int64(x) + 3000)}
+	case 14:
+		v, want = map[string]ufPS{"k": {&x8}}, []ev.Event{{K: ev.ObjStart}, key("k"), sNum(int64(x) + 3000), {K: ev.ObjEnd}}
+	case 15:
+		v, want = struct{ I interface{} }{ufPA{&x8}}, []ev.Event{{K: ev.ObjStart}, key("i"), sNum(int64(x) + 4000), {K: ev.ObjEnd}}
+	case 16:
+		v, want = []interface{}{[]ufPS{{&x8}}, &ufPS{&x8}, ufPA{&x8}}, []ev.Event{{K: ev.ArrStart}, {K: ev.ArrStart}, sNum(int64(x) + 3000), {K: ev.ArrEnd}, sNum(int64(x) + 3000), sNum(int64(x) + 4000), {K: ev.ArrEnd}}
 	case 0:
 		v, want = &t, []ev.Event{e}
 	case 1:
@@ -484,7 +496,9 @@ func FOLD_UserFolders(h *rt.H) {
 		}
 		return v.OnObjectFinished()
 	}
-	optA, optB := gotype.Folders(folder, mapFolder), gotype.Folders(objFolder)
+	psFolder := func(p *ufPS, v structform.ExtVisitor) error { return v.OnInt16(3000 + int16(*p.P)) }
+	paFolder := func(p *ufPA, v structform.ExtVisitor) error { return v.OnInt16(4000 + int16(*p[0])) }
+	optA, optB := gotype.Folders(folder, mapFolder, psFolder, paFolder), gotype.Folders(objFolder)
 	if h.Choose("optionsUsedBefore", 0, 1) == 1 {
 		// the same option values configured another iterator before: an option is a
 		// description, using it does not change it
